@@ -101,6 +101,7 @@ fn scan_string_literal() {
 #[cfg(kani)]
 #[kani::proof]
 #[kani::unwind(12)]
+#[kani::stub(core::str::count::count_chars, stub_count_chars)]
 fn scan_string_literal_multibyte() {
   // valid UTF-8 by construction: `"`, then up to three characters each of which is either one symbolic ASCII
   // byte or the two-byte character U+00E9, then a symbolic tail byte.  Columns are byte offsets in this code
@@ -142,6 +143,54 @@ fn scan_string_literal_multibyte() {
     None => {
       assert!(lx.position == before);
       assert!(lx.lexer.remainder().len() == len);
+    }
+  }
+}
+
+/// `str::chars().count()` goes through a chunked (SIMD-style) routine whose nested loops CBMC unwinds for
+/// minutes although it is never taken for short strings; the stub is the documented meaning: the number of
+/// bytes that are not UTF-8 continuation bytes.  (Only reached if the scanner starts counting characters.)
+#[cfg(kani)]
+fn stub_count_chars(s: &str) -> usize {
+  let b = s.as_bytes();
+  let mut n = 0;
+  let mut i = 0;
+  while i < b.len() {
+    if (b[i] as i8) >= -0x40 {
+      n += 1;
+    }
+    i += 1;
+  }
+  n
+}
+
+#[cfg(kani)]
+#[kani::proof]
+#[kani::unwind(12)]
+#[kani::stub(core::str::count::count_chars, stub_count_chars)]
+fn scan_string_literal_two_byte_fixed() {
+  // the cheap companion of scan_string_literal_multibyte: the literal "<a>\u{e9}<b>" with two symbolic ASCII
+  // bytes around one fixed two-byte character; everything else is concrete, so the solver only has to decide
+  // the column arithmetic (and still decides it when the implementation counts characters in a loop).
+  let a: u8 = kani::any();
+  let b: u8 = kani::any();
+  kani::assume(a < 128 && a != b'"' && a != b'\\' && a != b'\n');
+  kani::assume(b < 128 && b != b'"' && b != b'\\' && b != b'\n');
+  let buf = [b'"', a, 0xC3, 0xA9, b, b'"', b';'];
+  let src = unsafe { std::str::from_utf8_unchecked(&buf[..]) };
+  let mut lx = WrappedLogosLexer::new(src, ModuleReference::DUMMY);
+  let before = lx.position;
+  match lx.lex_str_lit_opt() {
+    Some((loc, s)) => {
+      let consumed = 7 - lx.lexer.remainder().len();
+      assert!(consumed == 6);
+      assert!(loc.start == before && loc.end == lx.position);
+      assert!(lx.position == advance(before, &buf[..consumed]));
+      kani::cover!(true);
+      std::mem::forget(s);
+    }
+    None => {
+      assert!(false);
     }
   }
 }
